@@ -67,6 +67,7 @@ type axiom struct {
 	name  string
 	text  string
 	lemma bool
+	decls []string // constants declared while translating the fact
 }
 
 type specSig struct {
